@@ -23,7 +23,10 @@ RULE = ("histories of 20-40 single-field setter calls (all 24 field setters plus
 OBS = {"op": "observe_all", "crates": False}
 
 
-def interleave(ops):
+OBS_B = {"op": "observe_all_b", "snapshots": True}
+
+
+def interleave(ops, twin=False):
     out, index = [], []
     for i, op in enumerate(ops):
         out.append(op)
@@ -31,6 +34,10 @@ def interleave(ops):
         if op["op"] != "create_temporary":
             out.append(OBS)
             index.append(None)
+            if twin and not op.get("lib"):
+                # the second library, open in the same process, is looked at after every step on the first
+                out.append(OBS_B)
+                index.append(None)
     return out, index
 
 
@@ -133,7 +140,7 @@ def judge_case(ctx, res):
     fam = family(schema)
     ops, metas, index = case["ops"], case["_metas"], case["_index"]
     ctx.bump_in("cases_by_schema", schema)
-    wit = {"schema": schema, "ops": [o for o in ops if o["op"] != "observe_all"]}
+    wit = {"schema": schema, "ops": [o for o in ops if not o["op"].startswith("observe_all")]}
     if res.crash:
         c = res.crash
         if c["op_index"] < 0:
@@ -145,6 +152,31 @@ def judge_case(ctx, res):
                       f"{schema}: {c.get('op')}({site}) did not complete: {c['kind']} in {c['site']}", dict(wit, crash=c["kind"]))
         return
     evs = res.events
+    if case.get("_twin"):
+        ctx.bump("twin_library_cases")
+        first = None
+        for k, ev in enumerate(evs):
+            if ops[k]["op"] != "observe_all_b":
+                continue
+            if "exc" in ev:
+                ctx.fail_harness("observe_all_b failed: %s" % ev["exc"]["type"])
+                return
+            ctx.bump("twin_library_observations")
+            if first is None:
+                first = ev["ret"]
+                if not (first.get("tracks") or {}):
+                    ctx.fail_harness("the second library has no tracks")
+                    return
+            elif ev["ret"] != first:
+                from .c10 import diff_paths, generic_site
+                where = diff_paths(first, ev["ret"])
+                j = k
+                while j > 0 and (ops[j]["op"].startswith("observe") or ops[j].get("lib")):
+                    j -= 1
+                ctx.violation(f"setter-touches-other-library {fam} {ops[j].get('field', ops[j]['op'])} {generic_site(where[0]) if where else ''}",
+                              f"{schema}: after {ops[j]['op']}({ops[j].get('field')}) on one library, a second library open in the same process "
+                              f"answers differently at {where[:3]}", wit)
+                break
     prev = None       # previous tracks observation: id -> track obs
     handles = {}      # handle -> id
     set_fields = set()
@@ -252,10 +284,19 @@ def judge_case(ctx, res):
         ctx.nontriv({"schema": schema, "ops": wit["ops"]})
 
 
-def make_case(cid, rng, schema, n_tracks, n_ops, first_id=None):
+def make_case(cid, rng, schema, n_tracks, n_ops, first_id=None, twin=False):
     ops, metas = GH.gen_setter_history(rng, schema, n_tracks, n_ops, first_id=first_id)
-    full, index = interleave(ops)
-    return {"id": cid, "schema": schema, "ops": full, "_metas": metas, "_index": index}
+    if twin:
+        # a second library of the same version with as many tracks (so that the track ids coincide), created right after
+        # the first and never touched again
+        pre = [{"op": "create_temporary", "schema": schema, "lib": 1}]
+        for t in range(n_tracks):
+            sn = GS.gen_snapshot(rng, schema, rich=True, hostile_sentinels=False)
+            pre.append({"op": "create_track", "as": "b%d" % t, "snap": sn, "lib": 1})
+        ops[1:1] = pre
+        metas[1:1] = [None] * len(pre)
+    full, index = interleave(ops, twin)
+    return {"id": cid, "schema": schema, "ops": full, "_metas": metas, "_index": index, "_twin": twin}
 
 
 def run(ctx):
@@ -268,7 +309,7 @@ def run(ctx):
             first = GH.FIRST_IDS[(k // 6) % len(GH.FIRST_IDS)] if k % 6 == 4 else None
             if first:
                 ctx.bump_in("histories_with_first_id", str(first))
-            cases.append(make_case("c%d" % n, ctx.rng, schema, 2 + (k % 2), 20 + (k % 3) * 10, first))
+            cases.append(make_case("c%d" % n, ctx.rng, schema, 2 + (k % 2), 20 + (k % 3) * 10, first, twin=(k % 6 == 1)))
             n += 1
         # many tracks side by side (row ids with more than one digit): the frame condition is then judged over 13-40 bystanders
         for k in range(1 if ctx.tier == "quick" else 12):
@@ -298,7 +339,9 @@ def replay(ctx, doc):
     # rebuild metas from the ops
     metas = []
     for op in ops:
-        if op["op"] == "create_track":
+        if op.get("lib"):
+            metas.append(None)
+        elif op["op"] == "create_track":
             metas.append({"kind": "create", "t": op["as"]})
         elif op["op"] == "set":
             metas.append({"kind": "set", "t": op["t"], "field": op["field"], "value": op["value"],
@@ -309,6 +352,7 @@ def replay(ctx, doc):
                           "value": op["value"], "excusable": False})
         else:
             metas.append(None)
-    full, index = interleave(ops)
-    case = {"id": "replay", "schema": r["schema"], "ops": full, "_metas": metas, "_index": index}
+    twin = any(o.get("lib") for o in ops)
+    full, index = interleave(ops, twin)
+    case = {"id": "replay", "schema": r["schema"], "ops": full, "_metas": metas, "_index": index, "_twin": twin}
     judge_case(ctx, runner.run_one(case, cfg="plain"))
